@@ -116,17 +116,16 @@ def make_edge(kind: str, a: np.ndarray, b: np.ndarray):
 _unit3 = st.tuples(st.floats(-1, 1), st.floats(-1, 1), st.floats(-1, 1)).map(list)
 
 
-@st.composite
-def face_geometry(draw):
-    return {
-        "sx": draw(st.floats(0.5, 2.0)),
-        "sy": draw(st.floats(0.5, 2.0)),
-        "jit": [draw(st.floats(-1, 1)) for _ in range(12)],
-        "axis": draw(_unit3),
-        "angle": draw(st.floats(-math.pi, math.pi)),
-        "origin": [draw(st.floats(-10, 10)) for _ in range(3)],
-        "kinds": list(draw(st.permutations(EDGE_KINDS)))[:4],
-    }
+# strategies are built once (building them inside a composite dominates the run time)
+face_geometry = st.fixed_dictionaries({
+    "sx": st.floats(0.5, 2.0),
+    "sy": st.floats(0.5, 2.0),
+    "jit": st.lists(st.floats(-1, 1), min_size=12, max_size=12),
+    "axis": _unit3,
+    "angle": st.floats(-math.pi, math.pi),
+    "origin": st.lists(st.floats(-10, 10), min_size=3, max_size=3),
+    "kinds": st.permutations(EDGE_KINDS).map(lambda p: list(p)[:4]),
+})
 
 
 def face_op(allowed: List[str]):
@@ -137,17 +136,19 @@ def face_op(allowed: List[str]):
         opts.append(st.just(["invert"]))
     if "reorient" in allowed:
         # near corner j (original numbering): p = P_j + frac * dmin_j * u / sqrt(3), frac <= 0.3
-        opts.append(st.tuples(st.just("reorient"), st.integers(0, 3), st.floats(0.0, 0.3), _unit3).map(list))
+        opts.append(st.tuples(st.just("reorient"), st.sampled_from([1, 3, 2, 0]), st.floats(0.0, 0.3), _unit3).map(list))
         opts.append(st.tuples(st.just("reorient-free"), _unit3, st.floats(0.0, 3.0)).map(list))
     return st.one_of(*opts)
 
 
-@st.composite
-def face_case(draw, allowed, max_ops):
-    g = draw(face_geometry())
-    n = draw(st.integers(1, max_ops))
-    g["ops"] = [draw(face_op(allowed)) for _ in range(n)]
-    return g
+def sized_list(element, max_size: int):
+    """length drawn uniformly first (st.lists alone strongly prefers short lists)"""
+    sizes = sorted(range(1, max_size + 1), key=lambda n: (n != min(2, max_size), n))  # Hypothesis favours the first entry
+    return st.sampled_from(sizes).flatmap(lambda n: st.lists(element, min_size=n, max_size=n))
+
+
+def face_case(allowed, max_ops):
+    return st.tuples(face_geometry, sized_list(face_op(allowed), max_ops)).map(lambda t: {**t[0], "ops": t[1]})
 
 
 def _ids_of(points: np.ndarray, orig: np.ndarray, facts) -> List[int]:
@@ -285,32 +286,38 @@ def _fixed_face_cases() -> List[dict]:
 # --------------------------------------------------------------------------------------------------
 # operation cells
 
-SMALL_DIMS = [(1, 1, 1), (1, 1, 1), (2, 1, 1), (1, 2, 1), (1, 1, 2), (2, 2, 1), (3, 1, 1)]
+SMALL_DIMS = [(2, 1, 1), (1, 1, 1), (1, 1, 1), (1, 2, 1), (1, 1, 2), (2, 2, 1), (3, 1, 1)]
 EDGE_PAIRS = [tuple(e) for e in HEX_EDGES]  # 12 unordered pairs, R-HEX
 ORDERED_EDGES = EDGE_PAIRS + [(b, a) for a, b in EDGE_PAIRS]
 SIDE_EDGES = {s: [frozenset(e) for e in EDGE_PAIRS if set(e) <= set(HEX_SIDES[s])] for s in SIDES}
 CURVES = ["arc", "spline", "polyLine"]
 
 
+_w = st.floats(0.5, 2.0)
+_j = st.floats(-1.0, 1.0)
+_rot = st.integers(0, 23)
+_off = st.lists(st.floats(-5, 5), min_size=3, max_size=3)
+
+
 @st.composite
 def assembly(draw):
     dims = draw(st.sampled_from(SMALL_DIMS))
     ncell = dims[0] * dims[1] * dims[2]
-    widths = [[draw(st.floats(0.5, 2.0)) for _ in range(dims[a])] for a in range(3)]
+    widths = [draw(st.lists(_w, min_size=dims[a], max_size=dims[a])) for a in range(3)]
     nn = (dims[0] + 1) * (dims[1] + 1) * (dims[2] + 1)
-    jit = [draw(st.floats(-1.0, 1.0)) for _ in range(3 * nn)]
-    k = draw(st.integers(1, min(3, ncell)))
+    jit = draw(st.lists(_j, min_size=3 * nn, max_size=3 * nn))
+    k = draw(st.sampled_from([n for n in (2, 1, 3) if n <= ncell]))
     cells = list(draw(st.permutations(list(range(ncell)))))[:k]
-    orient = [draw(st.integers(0, 23)) for _ in cells]
+    orient = draw(st.lists(_rot, min_size=k, max_size=k))
     return {"dims": list(dims), "widths": widths, "jitter": jit, "cells": cells, "orient": orient, "chops": [],
-            "offset": [draw(st.floats(-5, 5)) for _ in range(3)], "target": draw(st.integers(0, k - 1))}
+            "offset": draw(_off), "target": draw(st.integers(0, k - 1))}
 
 
 _curve = st.tuples(st.sampled_from(CURVES), st.floats(0.0, 2 * math.pi), st.floats(0.15, 0.3)).map(list)
 
 
 def call_strategy(kind: str):
-    side = st.sampled_from(SIDES)
+    side = st.sampled_from(["left", "right", "front", "back", "bottom", "top"])  # first entry is favoured: a lateral side
     if kind == "set_patch":
         return st.tuples(st.just(kind), st.one_of(side, st.lists(side, min_size=1, max_size=3, unique=True)),
                          st.sampled_from(["pA", "pB", "pC"])).map(list)
@@ -371,13 +378,9 @@ def sanitize(calls: List[list]) -> List[list]:
     return out
 
 
-@st.composite
-def op_case(draw, kinds: List[str], max_calls: int):
-    case = draw(assembly())
-    n = draw(st.integers(1, max_calls))
-    calls = [draw(call_strategy(draw(st.sampled_from(kinds)))) for _ in range(n)]
-    case["calls"] = sanitize(calls)
-    return case
+def op_case(kinds: List[str], max_calls: int):
+    one_call = st.one_of(*[call_strategy(k) for k in kinds])
+    return st.tuples(assembly(), sized_list(one_call, max_calls)).map(lambda t: {**t[0], "calls": sanitize(t[1])})
 
 
 def curve_payload(kind: str, phi: float, amp: float, a: np.ndarray, b: np.ndarray):
